@@ -46,14 +46,17 @@ ASSUMPTIONS = [
     'exact-regime hypothesis of the theorems; other inputs are discarded and counted)',
 ]
 OPEN_STATEMENTS = [
-    'givens_reconstruct / square_reconstruct: PROVED for the numeric Model in the exact regime, up to bookkeeping: for every '
-    'n x n unitary (square_decomposition_diagonalises) and every m x n isometry, m < n (givens_decomposition_diagonalises) '
-    'the matrix obtained by applying the elementary updates is (D | 0) with |D_jj| = 1.  Not formalised: that the recorded '
-    '(i, j, theta, phi) / left_unitary multiply out to U / V as matrix products (each recorded triple reproduces its G: '
-    'givens_matrix_elements_sound), and the case m = n of givens_decomposition (left stage only).  The exact-regime hypothesis '
-    '(SweepExact / LeftExact) is established per input by the harness probe, not proved from the input.',
+    'square_reconstruct and givens_reconstruct (m < n): PROVED in the exact regime as matrix products '
+    '(square_reconstruct_product, givens_reconstruct_product): with V the returned left_unitary and U^dagger the matrix obtained '
+    'by applying the RECORDED rotations (each rebuilt from its returned (theta, phi) as the docstring matrix) to the identity, '
+    'Q U^dagger = D resp. V Q U^dagger = (D | 0), |D_ii| = 1, D the returned diagonal.  Not formalised: unitarity of V as a '
+    'separate statement (row orthonormality of V Q is proved), the case m = n of givens_decomposition (left stage only), and the '
+    'exact-regime hypothesis itself, which the driver evaluates per input (op c11.hypotheses) rather than deriving it.',
     'gaussian_reconstruct (V W U^dagger = (0|D)) : not proved; FALSE on the real code when the left N x N block of W is '
-    'singular (known finding F11, kernel-checked counterexample on the Model); open for a non-singular left block.',
+    'singular (known finding F11, kernel-checked counterexample on the Model); open for a non-singular left block.  The hypothesis '
+    'a proof needs is stronger than non-singularity of the input: at every particle-hole step the pivot current[k/2, N-1] must be '
+    'non-zero exactly when the row still has weight in the left block (F11 is its failure); measured on weak-pairing inputs, the '
+    'thresholded code additionally loses accuracy ~ EQ_TOLERANCE x condition number there.  Not attempted in this round.',
     'givens_matrix_elements_sound is stated in the exact regime (entries / imaginary parts below EQ_TOLERANCE are exactly 0); '
     'behaviour for 0 < |x| < 1e-8 is outside the theorem.',
 ]
